@@ -21,5 +21,5 @@ WellFormed ==
                         /\ \A a \in 1..Len(t.comps) : (t.comps[a].mode = "def") = (t.comps[a].dflt # <<>>))
      /\ (t.k = "choice" => t.extAfter >= 0 - 1 /\ t.extAfter < Len(t.alts))
 
-Emit == PrintT(<<"REPLAY", ToJson([ast |-> DefOf(i), canon |-> CanonDef(DefOf(i)), consts |-> Consts(DefOf(i))])>>)
+Emit == PrintT(<<"REPLAY", ToJson([ast |-> DefOf(i), canon |-> CanonDef(DefOf(i)), consts |-> Consts(DefOf(i)), subs |-> SubsOf(DefOf(i))])>>)
 =============================================================================
